@@ -681,8 +681,19 @@ func executeDirectives(inst *Instance, filename string,
 	return nil
 }
 
-func startServers(serverList []Server, inst *Instance, restartFds map[string]restartTriple) error {
+func startServers(serverList []Server, inst *Instance, restartFds map[string]restartTriple) (err error) {
 	errChan := make(chan error, len(serverList))
+
+	// everything this call opens; closed again if the call fails,
+	// so that a failed start leaves no listening socket behind
+	var acquired []io.Closer
+	defer func() {
+		if err != nil {
+			for _, c := range acquired {
+				c.Close()
+			}
+		}
+	}()
 
 	// used for signaling to error logging goroutine to terminate
 	stopChan := make(chan struct{})
@@ -707,6 +718,7 @@ func startServers(serverList []Server, inst *Instance, restartFds map[string]res
 					if err != nil {
 						return fmt.Errorf("making listener from file: %v", err)
 					}
+					acquired = append(acquired, ln)
 					err = file.Close()
 					if err != nil {
 						return fmt.Errorf("closing copy of listener file: %v", err)
@@ -718,6 +730,7 @@ func startServers(serverList []Server, inst *Instance, restartFds map[string]res
 					if err != nil {
 						return fmt.Errorf("making packet connection from file: %v", err)
 					}
+					acquired = append(acquired, pc)
 					err = file.Close()
 					if err != nil {
 						return fmt.Errorf("closing copy of packet connection file: %v", err)
@@ -742,6 +755,7 @@ func startServers(serverList []Server, inst *Instance, restartFds map[string]res
 					if err != nil {
 						return fmt.Errorf("getting file listener: %v", err)
 					}
+					acquired = append(acquired, ln)
 					err = file.Close()
 					if err != nil {
 						return fmt.Errorf("closing copy of listener file: %v", err)
@@ -757,6 +771,7 @@ func startServers(serverList []Server, inst *Instance, restartFds map[string]res
 					if err != nil {
 						return fmt.Errorf("getting file packet connection: %v", err)
 					}
+					acquired = append(acquired, pc)
 					err = file.Close()
 					if err != nil {
 						return fmt.Errorf("close copy of packet file: %v", err)
@@ -771,11 +786,17 @@ func startServers(serverList []Server, inst *Instance, restartFds map[string]res
 			if err != nil {
 				return fmt.Errorf("Listen: %v", err)
 			}
+			if ln != nil {
+				acquired = append(acquired, ln)
+			}
 		}
 		if pc == nil {
 			pc, err = s.ListenPacket()
 			if err != nil {
 				return fmt.Errorf("ListenPacket: %v", err)
+			}
+			if pc != nil {
+				acquired = append(acquired, pc)
 			}
 		}
 
